@@ -82,6 +82,7 @@ type BuildCase struct {
 	MixV0       bool    `json:"mixv0"`       // directories: mixed CIDv0 / CIDv1 entry links
 	FaultSample int     `json:"faultsample"` // with Faults: inject only at this many evenly spread positions (0 = every position)
 	Hasher      uint64  `json:"hasher"`      // sharded directories: name hasher (0 = murmur3)
+	SizeBase    int64   `json:"sizebase"`    // directories: entries are declared with cumulative sizes SizeBase+id (sizes beyond 32 bits)
 	// files, beyond the listed properties: the source reader fails (a non-EOF error) after k bytes, for every k in
 	// ReadFailAt, or for every k in 0..Len when ReadFaults is set
 	ReadFaults bool  `json:"readfaults"`
@@ -287,7 +288,7 @@ func oneBuild(bc *BuildCase, v buildVariant, cc *caseClasses, content []byte, tr
 			lnk, size, err = builder.BuildUnixFSSymlink(bc.Target, ls)
 		case "dir", "sharded", "quickdir":
 			dc := &DirCase{Builder: map[string]string{"dir": "dir", "sharded": "sharded", "quickdir": "quick"}[bc.What],
-				Fanout: bc.Fanout, Universe: bc.Universe, Entries: v.order, MixV0: bc.MixV0, Hasher: bc.Hasher}
+				Fanout: bc.Fanout, Universe: bc.Universe, Entries: v.order, MixV0: bc.MixV0, Hasher: bc.Hasher, SizeBase: bc.SizeBase}
 			dc.Links = make([]int, len(v.order))
 			for i, id := range v.order {
 				dc.Links[i] = id % nTargets
@@ -442,7 +443,11 @@ func runBuildCase(bc *BuildCase, tr *Tr) error {
 			ev["refEq"] = root.Defined() && rroot.Equals(root) && rsize == uint64(num64(ev["ret"].(M)["size"]))
 		}
 	}
-	summarizeBig(ev)
+	if bc.SizeBase > 0 {
+		summarizeHuge(ev, st, root, bc)
+	} else {
+		summarizeBig(ev)
+	}
 	tr.Emit(ev)
 	emit := func(v buildVariant) {
 		e, _, _ := oneBuild(bc, v, cc, content, treeDir)
@@ -514,6 +519,64 @@ func runBuildCase(bc *BuildCase, tr *Tr) error {
 		}
 	}
 	return nil
+}
+
+// summarizeHuge: directories whose entries are declared with sizes beyond 32 bits (TLC's integers end there): the
+// C11 facts computed here in 64 bits from the stored blocks - every link to a block this build produced carries that
+// block's cumulative size, every entry link the declared size of its entry, the returned size is the root's cumulative size.
+func summarizeHuge(ev M, st *Store, root cid.Cid, bc *BuildCase) {
+	declared := map[string]int64{}
+	for _, id := range bc.Entries {
+		declared[bc.Universe[id-1]] = bc.SizeBase + int64(id)
+	}
+	tsizeOK := true
+	var cum func(c cid.Cid) int64
+	cum = func(c cid.Cid) int64 {
+		b, ok := st.Get(c)
+		if !ok {
+			tsizeOK = false
+			return 0
+		}
+		pn, d, err := decodePB(c, b)
+		if err != nil || pn == nil {
+			return int64(len(b))
+		}
+		pad := 0
+		if d != nil && d.GetType() == pb.Data_HAMTShard && d.GetFanout() > 0 {
+			pad = len(fmt.Sprintf("%X", d.GetFanout()-1))
+		}
+		total := int64(len(b))
+		for _, l := range pn.Links() {
+			var want int64
+			if pad > 0 && len(l.Name) == pad {
+				want = cum(l.Cid) // a child shard this build produced
+			} else {
+				name := l.Name
+				if pad > 0 && len(name) > pad {
+					name = name[pad:]
+				}
+				want = declared[name]
+			}
+			if int64(l.Size) != want {
+				tsizeOK = false
+			}
+			total += want
+		}
+		return total
+	}
+	ret := ev["ret"].(M)
+	returned := true
+	if ret["e"] == "nil" && root.Defined() {
+		returned = cum(root) == num64(ret["size"])
+	}
+	ev["big"] = true
+	ev["bigOK"] = M{"nodangling": true, "tsize": tsizeOK, "filesizes": true, "returned": returned, "complete": true}
+	ev["ncommits"] = len(ev["commits"].([]M))
+	ev["commits"] = []M{}
+	ev["n"] = -1
+	// sizes do not fit TLC's integers: carried as a flag only
+	ret["size"] = 0
+	ev["ext"] = []M{}
 }
 
 const bigBuild = 150
@@ -589,7 +652,7 @@ func summarizeBig(ev M) {
 	ev["n"] = -1
 }
 
-var treeNames = []string{"a", "b b", "ünï", "c.txt", "0A", "z-long-name-with-many-characters", "a.md", "ab", "b b 2", "c"}
+var treeNames = []string{"a", "b b", "ünï", "c.txt", "0A", "z-long-name-with-many-characters", "a.md", "ab", "b b 2", "c", ".hidden", ".config", "..data", "-dash"}
 
 // randomTree draws a small filesystem tree: depth <= 2, <= 3 children.
 func randomTree(r *rand.Rand, depth int, allowFifo bool) *TreeSpec {
@@ -852,6 +915,32 @@ func init() {
 					}
 				}
 			}
+		case "hugesizes":
+			// entries declared with cumulative sizes beyond 32 bits (multi-gigabyte files), plain and sharded
+			for fi, f := range []int{8, 256} {
+				u := mineUniverse(f, "plain")
+				ids := []int{1, 2, 3, 4, 5, 6, 7, 8}
+				for _, what := range []string{"sharded", "dir"} {
+					bc := &BuildCase{Fam: "build", ID: fmt.Sprintf("hugesizes-%s-%d", what, f), What: what, Fanout: f, Universe: u, Entries: ids,
+						SizeBase: int64(1)<<32 + int64(fi)<<33 + 12345}
+					if err := runBuildCase(bc, tr); err != nil {
+						return err
+					}
+				}
+			}
+		case "hugedir":
+			// a sharded directory of 70 000 entries, built twice
+			n := 70000
+			u := make([]string, n)
+			ids := make([]int, n)
+			for i := range u {
+				u[i] = fmt.Sprintf("entry-%06d", i)
+				ids[i] = i + 1
+			}
+			bc := &BuildCase{Fam: "build", ID: "hugedir-70000", What: "sharded", Fanout: 256, Universe: u, Entries: ids, Repeat: 1}
+			if err := runBuildCase(bc, tr); err != nil {
+				return err
+			}
 		case "quicktrees":
 			for _, n := range []int{0, 1, 12, 300, 700, 1200} {
 				bc := &BuildCase{Fam: "build", ID: fmt.Sprintf("quicktree-%d", n), What: "quicktree", Len: n, Repeat: 1}
@@ -895,6 +984,11 @@ func init() {
 		case "trees":
 			for i := 0; i < *count; i++ {
 				tree := randomTree(r, 0, false)
+				if i%5 == 4 {
+					// the import is rooted at a regular file (one block / several chunks) or at a symlink
+					tree = []*TreeSpec{{Name: "root", Kind: "file", Size: 700, Seed: r.Int63()}, {Name: "root", Kind: "file", Size: 600000, Seed: r.Int63()},
+						{Name: "root", Kind: "symlink", Target: "elsewhere"}, {Name: "root", Kind: "file", Size: 0}}[(i/5)%4]
+				}
 				bc := &BuildCase{Fam: "build", ID: fmt.Sprintf("tree-%d-%d", *seed, i), What: "recursive", W: 2 + r.Intn(3), Tree: tree,
 					Faults: *faults, Repeat: 1}
 				if err := runBuildCase(bc, tr); err != nil {
